@@ -284,7 +284,7 @@ def judge_c14(cfg, market, out, ctx):
             gross += abs(frac(x["price"]) * x["qty"])
             hold[x["asset"]] = hold.get(x["asset"], 0) + x["qty"]
             i += 1
-        tot = cash
+        tot = cash + frac(cfg.get("sleeve") or 0)      # the account's equity includes any other funded portfolio
         nan = False
         for a, q in hold.items():
             p = ref.price(a, t)
